@@ -17,6 +17,7 @@ from ..monitor import call_real, describe_exc, reach
 
 ID = 'C06'
 LEVEL = 'exploration'
+DEBUG_TOGGLE = True  # runner flips the library debug flag every 97 monitored executions
 TECHNIQUE = 'runtime monitoring: relational monitors over pairs of executions (replace one hidden / out-of-view world cell, make one visible opaque cell transparent) plus a chain-of-visibility BFS on each observation; all opacity patterns of small views enumerated; stochastic view bounded by the deterministic one'
 LEVEL_TEXT = ('For partially_occluded and raytracing: every world cell reported Hidden or lying outside the view is replaced in '
               'turn (opaque and transparent replacements forced) and the observation must not change; the agent\'s cell is '
@@ -265,6 +266,8 @@ def stochastic(ctx, state, area, fns, seeds, rng):
 
 
 def run(ctx):
+    from .. import custom_objects
+    custom_objects.enable(curtain=True)  # user-defined object types join the generators' pool (flags, not types, must decide)
     fns = FnCache()
     ctx.extra['exhaustive'] = True
     with reach(ctx, [visibility_fs.partially_occluded, visibility_fs._partially_occluded_make_visible, visibility_fs.raytracing,
@@ -276,7 +279,13 @@ def run(ctx):
                 ctx.add('random_cases_skipped_for_time')
                 break
             rng = gen.rng_for('C06rand', ctx.seed, ctx.shard, k)
-            state, area, cat = obsgen.rand_case(rng, hmax=8, wmax=8, maxext=4)
+            dense_types = None
+            if k % 3 == 2:
+                # many objects whose opacity is not determined by (type, status, colour): curtains, doors of every status
+                from ..custom_objects import Curtain
+                dense_types = [Floor, Curtain, Curtain, Door, Wall]
+                ctx.hit('dense_opacity_cases')
+            state, area, cat = obsgen.rand_case(rng, hmax=8, wmax=8, maxext=4, types=dense_types)
             for name in OCCLUDING:
                 if obsgen.supported(name, area):
                     analyse(ctx, state, area, name, fns[(name, area)], 10, rng)
@@ -303,6 +312,8 @@ def run(ctx):
 
 
 def replay(ctx, kind, payload):
+    from .. import custom_objects
+    custom_objects.enable(curtain=True)
     fns = FnCache()
     state = enc.state_from_json(payload['state'])
     area = obsgen.area_from_json(payload['area'])
